@@ -9,6 +9,9 @@ import (
 	"flag"
 	"fmt"
 	"os"
+	"regexp"
+	"strings"
+	"syscall"
 	"time"
 
 	"sonicverif/internal/kf"
@@ -29,6 +32,7 @@ type Replay struct {
 	TapeLenBeforeMinimisation int `json:"tape_len_before_minimisation"`
 	Notes     []string `json:"notes,omitempty"`
 	Trace     []string `json:"trace,omitempty"`
+	Race      bool     `json:"race,omitempty"` // needs the race-detector build to reproduce
 }
 
 type WorkerResult struct {
@@ -47,6 +51,70 @@ type WorkerResult struct {
 	WallS       float64        `json:"wall_s"`
 	FirstSeed   uint64         `json:"first_seed"`
 	LastSeed    uint64         `json:"last_seed"`
+}
+
+var raceLog *os.File
+var raceLogOff int64
+
+// setupRaceLog points fd 2 at a file so that the detector's reports can be
+// attached to the failure.
+func setupRaceLog(path string) {
+	if !raceBuild {
+		return
+	}
+	var f *os.File
+	var err error
+	if path == "" {
+		f, err = os.CreateTemp("", "racelog")
+		if err == nil {
+			os.Remove(f.Name())
+		}
+	} else {
+		f, err = os.OpenFile(path, os.O_CREATE|os.O_RDWR|os.O_TRUNC, 0o644)
+	}
+	if err != nil {
+		return
+	}
+	if err := syscall.Dup2(int(f.Fd()), 2); err != nil {
+		return
+	}
+	raceLog = f
+}
+
+var sonicFrame = regexp.MustCompile(`github\.com/talostrading/sonic(?:/[A-Za-z0-9_/]+)?[./]([A-Za-z0-9_]+\.[^\s]*)\(\)`)
+
+// run executes one scenario run and, in the race build, turns a detector
+// report that appeared during it into a failure of the run.
+func run(prop string, sc *scen.Scenario, variant int, seed uint64, replay []uint32, trace, thorough bool, known func(string) bool, avoid map[string]bool) scen.Outcome {
+	before := raceErrors()
+	o := scen.RunOne(prop, sc, variant, seed, replay, trace, thorough, known, avoid)
+	if raceErrors() > before && o.Harness == "" {
+		report := ""
+		if raceLog != nil {
+			st, _ := raceLog.Stat()
+			if st != nil && st.Size() > raceLogOff {
+				buf := make([]byte, st.Size()-raceLogOff)
+				raceLog.ReadAt(buf, raceLogOff)
+				raceLogOff = st.Size()
+				report = string(buf)
+			}
+		}
+		site := "unknown"
+		if m := sonicFrame.FindStringSubmatch(report); m != nil {
+			site = strings.NewReplacer("(", "", ")", "", "*", "").Replace(m[1])
+		}
+		if len(report) > 3500 {
+			report = report[:3500] + "..."
+		}
+		if os.Getenv("VERIF_REPLAY_TRACE") != "" {
+			fmt.Println(report)
+		}
+		if o.Fail == nil {
+			o.Fail = &scen.Failure{Property: prop, Scenario: sc.Name, Sig: prop + "/data-race/" + site,
+				Msg: "the race detector reported a data race during this simulated run (tasks are physically serialised; the accesses are unordered by the program's own synchronisation):\n" + report}
+		}
+	}
+	return o
 }
 
 func mix(a, b uint64) uint64 {
@@ -79,6 +147,7 @@ func main() {
 	kfPath := flag.String("known", "/verif/known_findings.json", "known findings")
 	replayDir := flag.String("replaydir", "/verif/replays", "where replay files go")
 	minBudget := flag.Float64("minimise", 30, "minimisation budget in seconds")
+	raceLogPath := flag.String("racelog", "", "race build: file that receives the detector's reports")
 	list := flag.Bool("list", false, "list properties and scenarios")
 	flag.Parse()
 
@@ -91,6 +160,7 @@ func main() {
 		return
 	}
 	thorough := *tier == "thorough"
+	setupRaceLog(*raceLogPath)
 	kff, err := kf.Load(*kfPath)
 	if err != nil {
 		fmt.Fprintln(os.Stderr, "known findings:", err)
@@ -157,7 +227,14 @@ func main() {
 			return false
 		}
 		reported[o.Fail.Sig] = true
-		rp := minimise(sc, o, thorough, known, avoid, *minBudget)
+		var rp Replay
+		if strings.Contains(o.Fail.Sig, "/data-race/") {
+			// the detector reports each pair of stacks once per process: no in-process minimisation
+			rp = Replay{Property: o.Prop, Scenario: o.Scenario, Variant: o.Variant, Seed: o.Seed, Thorough: thorough, Signature: o.Fail.Sig, Message: o.Fail.Msg,
+				TraceHash: o.TraceHash, Tape: o.Tape, TapeLenBeforeMinimisation: len(o.Tape), Notes: o.Notes, Race: true}
+		} else {
+			rp = minimise(sc, o, thorough, known, avoid, *minBudget)
+		}
 		os.MkdirAll(*replayDir, 0o755)
 		path := fmt.Sprintf("%s/%s-%d-w%d-%d.json", *replayDir, *prop, *seed, *worker, len(res.Violations))
 		js, _ := json.MarshalIndent(rp, "", " ")
@@ -176,7 +253,7 @@ func main() {
 		for v := 0; v < sc.Directed && !stopped; v++ {
 			if idx%*nworkers == *worker {
 				s := mix(*seed, uint64(1000003*idx+7))
-				o := scen.RunOne(*prop, sc, v, s, nil, false, thorough, known, avoid)
+				o := run(*prop, sc, v, s, nil, false, thorough, known, avoid)
 				account(&o)
 				res.Directed++
 				if len(res.Samples) < 1 && o.Fail == nil && o.Harness == "" {
@@ -215,7 +292,7 @@ func main() {
 			}
 			s := mix(*seed, uint64(i)+0x5bd1e995)
 			sc := pick(mix(s, 99))
-			o := scen.RunOne(*prop, sc, -1, s, nil, false, thorough, known, avoid)
+			o := run(*prop, sc, -1, s, nil, false, thorough, known, avoid)
 			if res.FirstSeed == 0 {
 				res.FirstSeed = s
 			}
@@ -397,7 +474,11 @@ func doReplay(path string, kff *kf.File) int {
 	}
 	open := kff.Open(rp.Property)
 	known := func(sig string) bool { _, ok := open[sig]; return ok }
-	o := scen.RunOne(rp.Property, sc, rp.Variant, rp.Seed, rp.Tape, true, rp.Thorough, known, kff.AvoidSet(rp.Property))
+	if rp.Race && !raceBuild {
+		fmt.Println("REPLAY needs the race-detector build")
+		return 2
+	}
+	o := run(rp.Property, sc, rp.Variant, rp.Seed, rp.Tape, true, rp.Thorough, known, kff.AvoidSet(rp.Property))
 	if os.Getenv("VERIF_REPLAY_TRACE") != "" {
 		for _, l := range o.Trace {
 			fmt.Println(l)
